@@ -852,7 +852,11 @@ func runConc(job *spec.Job) spec.Result {
 		res.Conflicts = append(res.Conflicts, spec.Conflict{Var: name, Loc: loc, A: accName(c.AccA, c.KindA), B: accName(c.AccB, c.KindB), TaskA: c.TaskA, TaskB: c.TaskB})
 	}
 	res.SchedFP = strconv.FormatUint(s.Fingerprint(), 16)
-	res.SchedRLE = s.RLE
+	if job.RecordPerms || job.WantFull || len(s.RLE) <= 64 {
+		res.SchedRLE = s.RLE // the full decision list can be long: returned on request (replay / minimisation) only
+	} else {
+		res.SchedRLE = s.RLE[:64]
+	}
 	res.Switches = s.Switches
 	res.Yields = s.Yields
 	res.Overlap = s.SwitchedInside()
